@@ -1,5 +1,5 @@
 CONSTANTS
-  Keys <- Keys6  Vals <- Vals2  BKeys <- BKeys3  BVals <- Vals2
+  Keys <- Keys6  Vals <- Vals2  BKeys <- BKeys3  BVals <- BVals3
   MaxBatch = 2  MaxSnaps = 1  MaxDepth = 2
   Inits <- InitsKV  ProbeKeys <- Probe  IterTable <- IterTab
 SPECIFICATION Spec
